@@ -426,12 +426,13 @@ pub fn c01(thorough: bool, replay: Option<String>) -> i32 {
         calls.extend(nested_cases(Some(s)));
         calls.extend(many_helpers_cases(Some(s), if thorough { 16 } else { 9 }));
         calls.extend(cse_cases(Some(s), thorough));
+        calls.extend(let_position_cases(Some(s)).into_iter().enumerate().filter(|(i, _)| thorough || i % 2 == 0).map(|(_, c)| c));
         calls.extend(constcond_cases(Some(s)).into_iter().enumerate().filter(|(i, _)| thorough || i % 2 == 0).map(|(_, c)| c));
         calls.extend(const_graph_cases(Some(s), if thorough { 4 } else { 3 }).into_iter().filter(|c| thorough || c.tags[1].ends_with("order0") || c.tags[1].ends_with("order1")));
     }
     let n = calls.len() as u64;
     let (st, capped) = par_range(n, 8, cap, || (), |_, st, i| check_c01_case(st, &calls[i as usize], "CALLS"));
-    rep.add_sub("CALLS", "recursion, mutual recursion, modules with 1..9 (thorough 16) helpers in three kind mixes, conditionals whose condition is a compile-time constant in 5 guises (literal, defconstant, not, nested if selecting nil / zero / one, an inline function of a literal), repeated (possibly raising) subexpressions in every conditional tree of depth <= 2 over two conditions and under 5 binder kinds x 5 non-root contexts, chains of defconst constants depending on each other directly / through a defun / inline / macro, lambdas capturing 1..4 variables (applied directly and through a helper), nested (mod ...) forms applied with `a` (outer helper kind x inner helper kind incl. a reused function name x 4 positions), constant/zero-argument calls inside helpers, every defun/inline assignment of call chains with a &rest tail at every call site, and every (parameters 1..4, given 0..n) combination of a &rest call with missing positional arguments, x 6 sigils x 2 option sets", n, true, capped, st);
+    rep.add_sub("CALLS", "recursion, mutual recursion, modules with 1..9 (thorough 16) helpers in three kind mixes, a let / assign in 5 positions of a defun / inline body (whole body, argument, under a conditional, binding value, &rest tail) x 4 call forms (positional, &rest tail supplying 1 / 2 / all parameters), conditionals whose condition is a compile-time constant in 5 guises (literal, defconstant, not, nested if selecting nil / zero / one, an inline function of a literal), repeated (possibly raising) subexpressions in every conditional tree of depth <= 2 over two conditions and under 5 binder kinds x 5 non-root contexts, chains of defconst constants depending on each other directly / through a defun / inline / macro, lambdas capturing 1..4 variables (applied directly and through a helper), nested (mod ...) forms applied with `a` (outer helper kind x inner helper kind incl. a reused function name x 4 positions), constant/zero-argument calls inside helpers, every defun/inline assignment of call chains with a &rest tail at every call site, and every (parameters 1..4, given 0..n) combination of a &rest call with missing positional arguments, x 6 sigils x 2 option sets", n, true, capped, st);
 
     let n = sp.kernel.len() as u64 * ns;
     let (st, capped) = par_range(n, 16, cap, || (), |_, st, i| {
@@ -738,6 +739,7 @@ pub fn c02(thorough: bool, replay: Option<String>) -> i32 {
     // quick tier: every 2nd / 4th / 2nd member of these families by index (fixed sub-enumerations, the full families run in C01's quick tier)
     cases.extend(nested_cases(None).into_iter().enumerate().filter(|(i, _)| thorough || i % 2 == 0).map(|(_, c)| c));
     cases.extend(many_helpers_cases(None, if thorough { 12 } else { 5 }));
+    cases.extend(let_position_cases(None).into_iter().enumerate().filter(|(i, _)| thorough || i % 5 == 1).map(|(_, c)| c));
     cases.extend(constcond_cases(None).into_iter().enumerate().filter(|(i, _)| thorough || i % 3 == 1).map(|(_, c)| c));
     cases.extend(cse_cases(None, thorough).into_iter().enumerate().filter(|(i, _)| thorough || i % 4 == 0).map(|(_, c)| c));
     cases.extend(lookalike_cases(None, thorough, if thorough { &["main-body", "function-body", "defconst", "inline-argument"] } else { &["main-body"] }).into_iter().enumerate().filter(|(i, _)| thorough || i % 2 == 0).map(|(_, c)| c));
